@@ -6,7 +6,7 @@ import os
 
 import vlib
 
-OPC = {"set": 0, "get": 1, "del": 2, "exists": 3, "append": 4, "remove": 5, "incr": 6, "setnx": 7}
+OPC = {"set": 0, "get": 1, "del": 2, "exists": 3, "append": 4, "remove": 5, "incr": 6, "setnx": 7, "dropc": 8, "dropall": 9}
 UNMODELLED = ("incrby", "sethash", "gethash", "delhash", "setexp")
 MUTATING = ("set", "del", "setnx", "append", "remove", "incr", "incrby", "sethash", "delhash", "setexp")
 
@@ -220,6 +220,27 @@ def nodes_prefix_cases(tables):
     return out
 
 
+def nodes_drop_cases(tables):
+    """"cache entry lost" (TTL expiry / eviction / cache restart) after every kind of write, for every prefix of the regenerated tables:
+    the write on node A, the loss of the cache copy, then reads from A, from B and from a cold node; then a second write from B, a loss
+    everywhere, reads again.  For two-tier classes the loss must be invisible (the persistent tier holds the value)."""
+    out = []
+    st = lambda n, op, k=0, v=0: {"node": n, "op": {"op": op, "k": k, "v": v}}
+    reads = lambda k: [st(0, "get", k), st(0, "exists", k), st(1, "get", k), st(-1, "get", k)]
+    for tbl in ("shared_persistent", "persistent", "shared", "runtime"):
+        for p in tables[tbl]:
+            key = p + ("1" if p.endswith(":") else "")
+            for shared, pers in ((True, True), (False, True), (True, False)):
+                for w1, w2 in (("set", "set"), ("setnx", "set"), ("set", "setnx"), ("append", "append"), ("append", "remove"), ("incr", "incr"), ("set", "del")):
+                    steps = [st(0, w1, 0, 1), st(0, "dropc")] + reads(0)
+                    if w2 == "setnx":      # SetNX only wins on an absent key
+                        steps += [st(1, "del"), st(1, "dropall")]
+                    steps += [st(1, w2, 0, 2), st(1, "dropall")] + reads(0)
+                    out.append({"mode": "nodes", "shared": shared, "pers": pers, "nodes": 2, "keys": [key], "kinds": ["x"], "init": [],
+                                "steps": steps, "prefix": p, "table": tbl, "writes": [w1, w2]})
+    return out
+
+
 def nodes_case(rng, cats, fixed):
     shared, pers = rng.random() < 0.5, rng.random() < 0.85
     nn = rng.choice([2, 3])
@@ -246,6 +267,8 @@ def nodes_case(rng, cats, fixed):
         opn = rng.choice(["set", "set", "set", "del", "get", "exists"] + (["setnx"] if fixed else []))
         # small value space on purpose: re-writing a value a node has already seen is the interesting case
         steps.append({"node": node, "op": {"op": opn, "k": k, "v": rng.randrange(1, 4)}})
+        if opn in ("set", "del", "setnx") and rng.random() < 0.3:
+            steps.append({"node": node, "op": {"op": rng.choice(["dropc", "dropall"]), "k": k, "v": 0}})
         if opn in ("set", "del", "setnx"):
             if rng.random() < 0.8:
                 steps.append({"node": -1, "op": {"op": rng.choice(["get", "get", "exists"]), "k": k, "v": 0}})
@@ -467,8 +490,10 @@ def classify_nodes(c, o, v):
     (bounded only by the cache TTL); everything else — cold-cache nodes, shared-cache classes, the writer itself — must be fresh"""
     cat = o["intended"][v["k"]]          # the class the prefix tables intend, not what getCategory answered
     local_cache = cat == 1 or (cat == 3 and not c["shared"])
-    if v["kind"] == "cross-node-stale-read" and v["reader"] >= 0 and v["reader"] != v["writer"] and local_cache:
+    if v["kind"] in ("cross-node-stale-read", "lost-after-cache-drop") and v["reader"] >= 0 and v["reader"] != v["writer"] and local_cache:
         return "cross-node-stale-local-cache"
+    if v["kind"] == "lost-after-cache-drop" and v.get("last_op") == "incr":
+        return "two-tier-counter-lost-with-cache-entry"
     return v["kind"]
 
 
@@ -478,17 +503,8 @@ def run(ctx, only_cases=None):
     gen_changed = vlib.write_if_changed(os.path.join(vlib.COQ, "Gen", "C14.v"), vlib.harness_text(binary, ["gen"]))
     broken = None
     try:
-        try:
-            pinfo = vlib.coq_properties("C14")
-        except vlib.Broken as b0:
-            # coq/.Makefile.d is shared by all properties' builds; a concurrent `make` of another property can leave it half-written
-            # ("missing separator").  That says nothing about this property: retry once after the other build has moved on.
-            if ".Makefile.d" not in (b0.detail or ""):
-                raise
-            import time
-            time.sleep(3)
-            pinfo = vlib.coq_properties("C14")
-        vlib.proof_coverage(ctx, pinfo, "make -C coq Properties/C14.vo && coqc Properties/C14.v (Print Assumptions audit)", extra_obligations=8)
+        pinfo = vlib.coq_properties("C14")
+        vlib.proof_coverage(ctx, pinfo, "make -C coq Properties/C14.vo && coqc Properties/C14.v (Print Assumptions audit)", extra_obligations=10)
     except vlib.Broken as b:
         broken = b
     rng = ctx.rng
@@ -519,7 +535,10 @@ def run(ctx, only_cases=None):
             cases.append(json.load(open(f)))
         cases += witness_cases(fixed)
         cases += nodes_witnesses()
-        cases += nodes_prefix_cases(vlib.run_harness(binary, [{"mode": "tables"}])[0])
+        tables = vlib.run_harness(binary, [{"mode": "tables"}])[0]
+        cases += nodes_prefix_cases(tables)
+        dc = nodes_drop_cases(tables)
+        cases += dc if thorough else [dc[i] for i in sorted(rng.sample(range(len(dc)), 250))] + [x for x in dc if x["table"] == "shared_persistent" and x["writes"][0] == "setnx"][:20]
         cases += [nodes_case(rng, cats, fixed["setnx"]) for _ in range(4000 if thorough else 350)]
         cases += alias_cases(rng, cats, 3000 if thorough else 200)
         g = Gen(rng, cats, fixed["setnx"])
